@@ -257,6 +257,43 @@ def check_C19(tier, seed):
                     counts["eqhash_vacuous"] += part.endswith("SP0")
             if has_collection(base):
                 res.nontrivial.add(base)
+        # equality of the marked types IS equality of the data (C19_marked_eq_ignores_spans, both directions): pairs of
+        # texts of the same shape whose nodes occupy the SAME spans but hold different data (one character of a scalar
+        # replaced by another of its class), identical pairs, and neighbours in the case list
+        prng = __import__("random").Random("%s/C19-eqpair" % seed)
+        pairs = []
+        accl = [i for i in acc if 0 < len(cases[i]) <= 400]
+        for i in accl[:3000 if tier == "quick" else 60000]:
+            t = cases[i]
+            pos = [k for k, ch in enumerate(t) if ch.isalnum()]
+            if pos:
+                k = prng.choice(pos)
+                repl = prng.choice("0123456789") if t[k].isdigit() else prng.choice("abcxyzABC")
+                if repl != t[k]:
+                    pairs.append((t, t[:k] + repl + t[k + 1:], "edited"))
+            pairs.append((t, t, "same"))
+        for a_, b_ in zip(accl[:1500], accl[1:1501]):
+            pairs.append((cases[a_], cases[b_], "neighbours"))
+        pairs += [("port: 8080\n", "port: 8081\n", "edited"), ("[a, b]\n", "[c, d, e, f]\n", "edited"), ("- true\n- b\n", "- null\n- b\n", "edited"),
+                  ("{a: 1}\n", "{a: 2}\n", "edited"), ("'x'\n", "'y'\n", "edited")]
+        ep = run_bin("hx_c07", ["eqpair"], ["%s#%s" % (enc(a_), enc(b_)) for a_, b_, _ in pairs])
+        kinds = {}
+        for (a_, b_, kind), o in zip(pairs, ep):
+            res.evaluations += 1
+            f = o.split("|")
+            if o.startswith("|PANIC") or len(f) != 4:
+                res.add_violation("eq/hash of two loaded texts panicked", dict(input=a_, other=b_), out=o[:200])
+                continue
+            if "SKIP" in f:
+                continue
+            kinds[kind + ("/equal" if f[0][:2] == "E1" else "/different")] = kinds.get(kind + ("/equal" if f[0][:2] == "E1" else "/different"), 0) + 1
+            for t, r in zip(("owned", "marked", "markedowned"), f[1:]):
+                if r[:2] != f[0][:2]:
+                    res.add_violation("equality of %s nodes is not the equality of the data (Yaml says %s, %s says %s)" % (t, f[0][:2], t, r[:2]),
+                                      dict(input=a_, other=b_, node=t, pair=kind), out=o)
+                elif r[:2] == "E1" and r[2:] != "H1":
+                    res.add_violation("equal %s nodes hash differently" % t, dict(input=a_, other=b_, node=t, pair=kind), out=o)
+        counts["eq_pairs"] = kinds
         res.coverage["verdicts"] = counts
         # ---------------- (2) synthetic sentences ----------------
         si = run_bin("hx_c07", ["load"], sents)
